@@ -485,7 +485,7 @@ func c06s1(sa *sharedAnalysis, rule string) int {
 			case *ssa.Call:
 				// library calls that reorder / overwrite their first argument in place
 				if mutatingExternal[calleeName(&x.Call)] && len(x.Call.Args) > 0 {
-					addr = stripIface(x.Call.Args[0])
+					addr = mutatedArg(&x.Call)
 					if _, isBasic := addr.Type().Underlying().(*types.Basic); isBasic {
 						return
 					}
